@@ -60,9 +60,12 @@ def normalise_program(trees: Dict[str, ast.Module], pkgs: Set[str]) -> None:
         _iso(t)  # isinstance(x, _TYPES) with a private tuple of classes is the `or` of the single tests now
     for m, t in trees.items():
         if not (".tests" in m or m.endswith("tests")):
+            ho.expand_member_factories(t)
+            ho.explicit_super(t)
             ho.format_calls(t)
             ho.function_values(t)
             ho.fuse_genexps(t)
+            ho.yield_from_genexp(t)
             ho.bool_indexed_pairs(t)
             ho.genexp_for_loops(t)
             ho.for_break_else(t)
@@ -1804,7 +1807,7 @@ _first_cache: Dict[Tuple[int, str], Optional["_Helper"]] = {}
 
 
 def _first_of(h: "_Helper", default: ast.Constant) -> Optional["_Helper"]:
-    key = (id(h.node), repr(default.value))
+    key = (id(h.node), ast.dump(default))
     if key in _first_cache:
         return _first_cache[key]
     own = list(_own_nodes(h.node))
@@ -2391,7 +2394,8 @@ def _inline_helpers(mod: str, tree: ast.Module, all_helpers, trees, pkgs: Set[st
                     return h, recv
                 # next(gen_helper(..), <constant>): the first value the generator yields, else the constant - a function whose
                 # `yield E` is `return E` and whose end is `return <constant>`
-                if isinstance(e.func, ast.Name) and e.func.id == "next" and len(e.args) == 2 and not e.keywords and isinstance(e.args[1], ast.Constant) and isinstance(e.args[0], ast.Call):
+                if isinstance(e.func, ast.Name) and e.func.id == "next" and len(e.args) == 2 and not e.keywords and isinstance(e.args[0], ast.Call) \
+                        and (isinstance(e.args[1], ast.Constant) or (isinstance(e.args[1], ast.Tuple) and all(isinstance(x_, ast.Constant) for x_ in e.args[1].elts))):
                     h, recv = scope.match(e.args[0])
                     if h is not None and h.is_gen and usable(h):
                         d = _first_of(h, e.args[1])
